@@ -21,13 +21,19 @@ import (
 	"fmt"
 )
 
+// WithInterruptBeforeNodes lets the graph interrupt before any of the given nodes runs.
+// The node keys are copied: changing the slice afterwards does not change a compiled graph.
 func WithInterruptBeforeNodes(nodes []string) GraphCompileOption {
+	nodes = append([]string(nil), nodes...)
 	return func(options *graphCompileOptions) {
 		options.interruptBeforeNodes = nodes
 	}
 }
 
+// WithInterruptAfterNodes lets the graph interrupt after any of the given nodes has run.
+// The node keys are copied: changing the slice afterwards does not change a compiled graph.
 func WithInterruptAfterNodes(nodes []string) GraphCompileOption {
+	nodes = append([]string(nil), nodes...)
 	return func(options *graphCompileOptions) {
 		options.interruptAfterNodes = nodes
 	}
